@@ -78,6 +78,7 @@ theorem step_sem_nolen (b : StrBag) (c : StrCk) (s : Str) (ha : asciiStr s = tru
   | lower => simp [StrBag.step, addPat_sem, StrCk.holds, Pat.holds]
   | upper => simp [StrBag.step, addPat_sem, StrCk.holds, Pat.holds]
   | trim => simp [StrBag.step, StrCk.holds]
+  | re r => simp [StrBag.step, addPat_sem, StrCk.holds, Pat.holds]
 
 theorem fold_sem_lenFree (cs : List StrCk) (b : StrBag) (s : Str) (ha : asciiStr s = true)
     (h : strLenOK.lenFree cs = true) :
@@ -141,6 +142,10 @@ theorem fold_sem_lenOK (cs : List StrCk) (b : StrBag) (s : Str) (ha : asciiStr s
     | trim =>
       have h' : strLenOK cs = true := by simpa [strLenOK] using h
       rw [ih _ h' (by simp [StrBag.step, h1]) (by simp [StrBag.step, h2]),
+          step_sem_nolen b _ s ha (by intro m; simp), Bool.and_assoc]
+    | re r =>
+      have h' : strLenOK cs = true := by simpa [strLenOK] using h
+      rw [ih _ h' (by simp [StrBag.step, StrBag.addPat]; split <;> simp [h1]) (by simp [StrBag.step, StrBag.addPat]; split <;> simp [h2]),
           step_sem_nolen b _ s ha (by intro m; simp), Bool.and_assoc]
 
 theorem allValid_pats (ps : List Pat) (s : Str) :
